@@ -247,7 +247,18 @@ def setup(ctx):
     T = core.PeriodicTable('c02_private_%d' % ctx.shard)
     mass.init(T)
     density.init(T)
-    _s['tables'] = {'public': pt.elements, 'private': T}
+    # a second private table whose masses were all changed (x 1.25): atoms, and in particular ions,
+    # of the wrong table show up as wrong masses
+    Ts = core.PeriodicTable('c02_scaled_%d' % ctx.shard)
+    mass.init(Ts)
+    density.init(Ts)
+    for el in Ts:
+        el._mass = el._mass * 1.25
+        for iso in el:
+            iso._mass = iso._mass * 1.25
+    _s['tables'] = {'public': pt.elements, 'private': T, 'private_scaled': Ts}
+    _s['scale'] = {'public': 1.0, 'private': 1.0, 'private_scaled': 1.25}
+    _s['cur_scale'] = 1.0
 
     reach = Reach()
     F = formulas.Formula
@@ -293,7 +304,13 @@ def _compare(ctx, f, want, where, quiet=False):
     """Compare atoms, mass, charge, mass fractions of formula *f* with the model atoms *want*
     (key -> Fraction).  Returns a list of problem strings."""
     from ..atoms import key as akey
-    m, me = _s['model'], _s['me']
+    m0, me = _s['model'], _s['me']
+    scale = _s['cur_scale']
+
+    class m(object):      # masses of the table the case runs on (tabulated mass x the table's scale)
+        @staticmethod
+        def atom_mass(k, me):
+            return (m0.iso[(k[0], k[1])][0] if k[1] else m0.el[k[0]][0]) * scale - k[2] * me
     problems = []
     atoms = f.atoms
     got = {}
@@ -461,6 +478,7 @@ def check_program(ctx, case):
     from ..gen.programs import signature, loads
     tname = case.get('table', 'public')
     T = _s['tables'][tname]
+    _s['cur_scale'] = _s['scale'][tname]
     ctx.count('cases.' + tname)
     prog = loads(case['prog'])   # JSON text of the program (see programs.dumps)
     problems = _run(ctx, prog, T)
@@ -485,6 +503,7 @@ def check_atom_sweep(ctx, case):
     from ..gen.programs import num, frac
     tname = case.get('table', 'public')
     T = _s['tables'][tname]
+    _s['cur_scale'] = _s['scale'][tname]
     ctx.count('cases.' + tname)
     Z = case['Z']
     el = T[Z]
@@ -520,9 +539,9 @@ def generate(ctx):
     from ..gen.programs import ProgramGen, dumps
     rng = ctx.rng
     i = 0
-    for tname in ('public', 'private'):
+    for tname in ('public', 'private', 'private_scaled'):
         for Z in range(1, 119):
-            if tname == 'private' and Z % (2 if ctx.thorough() else 6):
+            if tname != 'public' and Z % (2 if ctx.thorough() else 6):
                 i += 1
                 continue
             if ctx.mine(i):
@@ -531,7 +550,8 @@ def generate(ctx):
             i += 1
     gens = dict((t, ProgramGen(T, rng)) for t, T in _s['tables'].items())
     for _ in range(ctx.scale(400, 15000)):
-        tname = 'private' if rng.random() < 0.15 else 'public'
+        r = rng.random()
+        tname = 'private' if r < 0.1 else ('private_scaled' if r < 0.2 else 'public')
         yield 'program', {'table': tname, 'prog': dumps(gens[tname].program())}
 
 
